@@ -1,12 +1,14 @@
 (* C10: every Schur variant preserves the unitary similarity A = Q T Q^H. *)
 From Coq Require Import Reals Arith Lia List.
 From QV Require Import CRing Sums Quat Mat QMat CRingR.
-From QVT Require Import Reflector Norms SchurThm.
+From QV Require Import FOps FOpsR.
+From QVM Require Import Householder Givens Schur.
+From QVT Require Import Reflector Norms HouseholderR SchurThm SchurModelThm.
 Import ListNotations.
 Close Scope R_scope. Open Scope nat_scope.
 
 (* one similarity step and one deflation keep  Q unitary  and  Q^H A Q = T + D  (D = everything set to zero so far) *)
-Theorem C10_similarity_step (C : CRing) (n : nat) (A Qm H D G : qmat C) : unitary C n G -> schur_inv C n A Qm H D ->
+Theorem C10_similarity_step (C : CRing) (n : nat) (A Qm H D G : qmat C) : Reflector.unitary C n G -> schur_inv C n A Qm H D ->
   schur_inv C n A (qmm n Qm (qherm G)) (qmm n (qmm n G H) (qherm G)) (qmm n (qmm n G D) (qherm G)).
 Proof. exact (schur_sim C n A Qm H D G). Qed.
 Theorem C10_deflation_step (C : CRing) (n : nat) (A Qm H D E : qmat C) : schur_inv C n A Qm H D -> schur_inv C n A Qm (qmsub H E) (qmadd D E).
@@ -15,10 +17,10 @@ Proof. exact (schur_defl C n A Qm H D E). Qed.
    Q is unitary, A = Q (T + D) Q^H and ||D||_F is at most the sum of the norms of what was set to zero *)
 Theorem C10_every_schedule (n : nat) (A P0 H0 : qmat RR) (ops : list sop) : sim_inv RR n A P0 H0 -> ops_ok n ops ->
   let '(Qm, T, D) := srun n ops (qherm P0, H0, fun _ _ => qzero) in
-  unitary RR n Qm /\ meq n n (qmm n (qmm n Qm (qmadd T D)) (qherm Qm)) A /\ (normF n n D <= budget n ops)%R.
+  Reflector.unitary RR n Qm /\ meq n n (qmm n (qmm n Qm (qmadd T D)) (qherm Qm)) A /\ (normF n n D <= budget n ops)%R.
 Proof. exact (schur_error_bound n A P0 H0 ops). Qed.
 (* the explicit QR step R = Qi (H - sigma I), H' = R Qi^H + sigma I is the similarity Qi H Qi^H *)
-Theorem C10_explicit_qr_step (C : CRing) (n : nat) (H Qi Sg : qmat C) : unitary C n Qi -> meq n n (qmm n Qi Sg) (qmm n Sg Qi) ->
+Theorem C10_explicit_qr_step (C : CRing) (n : nat) (H Qi Sg : qmat C) : Reflector.unitary C n Qi -> meq n n (qmm n Qi Sg) (qmm n Sg Qi) ->
   meq n n (qmadd (qmm n (qmm n Qi (qmsub H Sg)) (qherm Qi)) Sg) (qmm n (qmm n Qi H) (qherm Qi)).
 Proof. exact (explicit_qr_step C n H Qi Sg). Qed.
 (* reported convergence on a Hermitian matrix: T is diagonal up to tol + 2 ||D||_F with a diagonal real up to 2 ||D||_F *)
@@ -29,8 +31,50 @@ Theorem C10_hermitian_converged (n : nat) (A Qm T D : qmat RR) (tol : R) :
   (forall i, i < n -> (qabs (qsub (T i i) (qconj (T i i))) <= 2 * normF n n D)%R).
 Proof. exact (hermitian_converged_is_nearly_real_diagonal n A Qm T D tol). Qed.
 
+(* ---- the model of schur.py at the real instance.  Every entry point, for every input, tolerance, budget,
+   shift mode, window and every recorded shift schedule / eigvals list: Q is unitary, Q^H A Q = T + D and
+   ||D||_F is at most the budget the model reports (the sum of the moduli of all entries it set to zero) *)
+Theorem C10_pure_variants (n : nat) (tol : R) (rayleigh : bool) (max_iter : nat) (A : fmat ROps) :
+  schur_sound n A (schur_pure ROps n tol rayleigh max_iter A).
+Proof. exact (schur_pure_sound n tol rayleigh max_iter A). Qed.
+Theorem C10_implicit_variant (n : nat) (tol : R) (rayleigh : bool) (max_iter : nat) (A : fmat ROps) :
+  schur_sound n A (schur_implicit ROps n tol rayleigh max_iter A).
+Proof. exact (schur_implicit_sound n tol rayleigh max_iter A). Qed.
+Theorem C10_unified_aed_ds (n : nat) (tol aedf : R) (ds : bool) (istart max_iter : nat) (schedule : list R) (eigs : list (list R)) (A : fmat ROps) :
+  1 <= istart -> schur_sound n A (schur_unified ROps n tol aedf ds istart max_iter schedule eigs A).
+Proof. exact (schur_unified_sound n tol aedf ds istart max_iter schedule eigs A). Qed.
+Theorem C10_experimental_windowed (n : nat) (tol : R) (window : nat) (ds : bool) (max_iter : nat) (eigs : list (list R)) (A : fmat ROps) :
+  1 <= n -> schur_sound n A (schur_exper ROps n tol window ds max_iter eigs A).
+Proof. exact (schur_exper_sound n tol window ds max_iter eigs A). Qed.
+Theorem C10_real_expansion_givens (n : nat) (tol : R) (mode max_iter : nat) (eigs : list (list R)) (A : fmat ROps) :
+  schur_sound n A (schur_givens ROps n tol mode max_iter eigs A).
+Proof. exact (schur_givens_sound n tol mode max_iter eigs A). Qed.
+(* the convergence flag is truthful in every loop: converged = true implies every entry below the diagonal is within tol
+   (quaternion_schur's final clean-up afterwards only sets entries to zero) *)
+Theorem C10_flag_pure (n : nat) (tol : R) (ray : bool) (fuel k : nat) (st : sst ROps) : flag_ok n tol (pure_loop ROps n tol ray fuel k st).
+Proof. exact (pure_flag n tol ray fuel k st). Qed.
+Theorem C10_flag_implicit (n : nat) (tol : R) (ray : bool) (fuel k : nat) (st : sst ROps) : flag_ok n tol (implicit_loop ROps n tol ray fuel k st).
+Proof. exact (implicit_flag n tol ray fuel k st). Qed.
+Theorem C10_flag_unified (n : nat) (tol aedf : R) (ds : bool) (istart fuel : nat) (schedule : list R) (eigs : list (list R)) (k : nat) (st : sst ROps) :
+  flag_ok n tol (unified_loop ROps n tol aedf ds istart fuel schedule eigs k st).
+Proof. exact (unified_flag n tol aedf ds istart fuel schedule eigs k st). Qed.
+Theorem C10_flag_experimental (n : nat) (tol : R) (window : nat) (ds : bool) (fuel : nat) (eigs : list (list R)) (k hi : nat) (st : sst ROps) :
+  flag_ok n tol (exper_loop ROps n tol window ds fuel eigs k hi st).
+Proof. exact (exper_flag n tol window ds fuel eigs k hi st). Qed.
+Theorem C10_flag_givens (n : nat) (tol : R) (mode fuel : nat) (eigs : list (list R)) (k m : nat) (prev : option R) (stag : nat) (st : sst ROps) :
+  flag_ok n tol (giv_loop ROps n tol mode fuel eigs k m prev stag st).
+Proof. exact (giv_flag n tol mode fuel eigs k m prev stag st). Qed.
+Theorem C10_final_cleanup_only_zeroes (n : nat) (tol : R) (st : sst ROps) : only_zeroed n st (final_clean ROps n tol st).
+Proof. exact (final_clean_only_zeroes n tol st). Qed.
+
 Print Assumptions C10_similarity_step.
 Print Assumptions C10_deflation_step.
 Print Assumptions C10_every_schedule.
 Print Assumptions C10_explicit_qr_step.
 Print Assumptions C10_hermitian_converged.
+Print Assumptions C10_pure_variants.
+Print Assumptions C10_implicit_variant.
+Print Assumptions C10_unified_aed_ds.
+Print Assumptions C10_experimental_windowed.
+Print Assumptions C10_real_expansion_givens.
+Print Assumptions C10_flag_givens.
